@@ -221,6 +221,9 @@ func kindsReachUpdate(out *scenOut) {
 	var fnCalled int32
 	msgs = append(msgs, tea.Cmd(func() tea.Msg { atomic.AddInt32(&fnCalled, 1); return userMsg{4, 90} }), userMsg{4, 5},
 		func() tea.Msg { atomic.AddInt32(&fnCalled, 1); return userMsg{4, 91} }, userMsg{4, 6})
+	// ... and a value whose CONTENT is nil - a nil slice, map or pointer of a named type - is a message
+	// (only the nil interface value is "no message")
+	msgs = append(msgs, nilListMsg(nil), userMsg{4, 7}, nilMapMsg(nil), (*ptrMsg)(nil), userMsg{4, 8})
 	run := startProgram(ctl, nil, tea.WithInput(nil), tea.WithoutSignalHandler())
 	var want []string
 	for _, m := range msgs {
@@ -505,6 +508,7 @@ func scenCmds(out *scenOut, r *rng, thorough bool) {
 	}
 	twoBigBatches(out)
 	twoProgramsCommands(out)
+	typedNilResults(out)
 }
 
 // batchReuse: the SAME Batch command value (or the same BatchMsg value) occurs more than once:
@@ -2552,5 +2556,45 @@ func heldMessagesStayIntact(out *scenOut) {
 			}
 			return
 		}
+	}
+}
+
+// (the message types with nil content are nilListMsg, nilMapMsg and *ptrMsg, declared above)
+
+// typedNilResults: commands whose results are non-nil messages with nil content (an empty result
+// list as a nil slice, a nil map, a nil pointer): each is delivered to Update exactly once (C02).
+func typedNilResults(out *scenOut) {
+	ctl := newRecCtl()
+	var seen [3]int32
+	ctl.onUpdate = func(m tea.Msg, v int) tea.Cmd {
+		switch m.(type) {
+		case nilListMsg:
+			atomic.AddInt32(&seen[0], 1)
+		case nilMapMsg:
+			atomic.AddInt32(&seen[1], 1)
+		case *ptrMsg:
+			atomic.AddInt32(&seen[2], 1)
+		}
+		if u, ok := m.(userMsg); ok && u.Sender == 9 {
+			return tea.Batch(func() tea.Msg { return nilListMsg(nil) }, func() tea.Msg { return nilMapMsg(nil) }, func() tea.Msg { return (*ptrMsg)(nil) },
+				tea.Sequence(func() tea.Msg { return nilListMsg(nil) }, func() tea.Msg { return cmdMsg{"after-nil-content"} }))
+		}
+		return nil
+	}
+	run := startProgram(ctl, nil, tea.WithInput(nil), tea.WithoutSignalHandler())
+	desc := "commands returning a nil slice, a nil map and a nil pointer of named message types (in a Batch, and as the first element of a Sequence)"
+	waitFor(2*time.Second, func() bool { return ctl.log.has("view-exit", "") })
+	run.p.Send(userMsg{9, 0})
+	waitFor(3*time.Second, func() bool {
+		return ctl.log.has("update-exit", "c:after-nil-content") && atomic.LoadInt32(&seen[2]) >= 1
+	})
+	time.Sleep(30 * time.Millisecond)
+	run.p.Quit()
+	run.wait(4 * time.Second)
+	out.record("typed-nil-results", desc)
+	got := fmt.Sprint(atomic.LoadInt32(&seen[0]), atomic.LoadInt32(&seen[1]), atomic.LoadInt32(&seen[2]))
+	if got != "2 1 1" {
+		out.fail(finding{Property: "C02", Class: "new", What: "a command's non-nil result whose content is nil (a nil slice / map / pointer of a message type) was not delivered to Update exactly once", Input: desc,
+			Expected: "nil slice twice, nil map once, nil pointer once", Observed: got})
 	}
 }
